@@ -84,6 +84,44 @@ func bytesAfterParen(tmpl string, args []V, wop bool) bool {
 	}
 	return false
 }
+func emptyKnownList(v *V) bool {
+	return v != nil && v.T == "VList" && len(v.L) == 0 && (v.S == "LKnown" || v.S == "LIface")
+}
+
+// an Eq over an empty list that gorm negates into Neq (Not(...), clause.Not), or a Neq given directly
+func negatedEmptyList(v V, negated bool) bool {
+	switch v.T {
+	case "VCmp":
+		if emptyKnownList(v.X2) && (v.S == "ONeq" || (v.S == "OEq" && negated)) {
+			return true
+		}
+	case "VNot":
+		negated = true
+	case "KCond":
+		n := v.S == "KNot"
+		if n && v.X != nil && v.X.T == "VQStr" && len(v.L) == 1 && emptyKnownList(&v.L[0]) {
+			return true
+		}
+		if v.X != nil && negatedEmptyList(*v.X, n) {
+			return true
+		}
+		negated = false
+	}
+	for _, l := range [][]V{v.L, v.L2, v.L3} {
+		for _, x := range l {
+			if negatedEmptyList(x, negated) {
+				return true
+			}
+		}
+	}
+	for _, x := range []*V{v.X, v.X2} {
+		if x != nil && v.T != "KCond" && negatedEmptyList(*x, negated) {
+			return true
+		}
+	}
+	return false
+}
+
 func sigWalk(v V, found map[string]bool) {
 	switch v.T {
 	case "KCond", "KHaving":
@@ -136,6 +174,18 @@ func sigOf(in Input) string {
 	}
 	if (in.Fin.K == "raw" || in.Fin.K == "exec") && bytesAfterParen(in.Fin.S, in.Fin.L, false) {
 		found["bytes-after-paren"] = true
+	}
+	all := append(append([]V{}, in.Chain...), in.Fin.L...)
+	if in.Fin.X != nil {
+		all = append(all, *in.Fin.X)
+	}
+	for _, c := range all {
+		if negatedEmptyList(c, false) {
+			return "neq-empty-list"
+		}
+	}
+	if len(in.Fin.L) == 2 && in.Fin.L[0].T == "VQStr" && false {
+		return ""
 	}
 	for _, s := range []string{"bytes-after-paren", "bytes-in-map-condition", "bytes-in-built-subquery"} {
 		if found[s] {
@@ -251,7 +301,10 @@ func main() {
 					kind = "edge"
 				}
 			}
-			break
+			if sigOf(in) != "neq-empty-list" { // known finding: replayed from the corpus only
+				break
+			}
+			out.Count("regenerated_known_shape", "neq-empty-list")
 		}
 		if sg := sigOf(in); sg != "" {
 			out.Count("shape_of_fixed_finding", sg) // fixed in /repo b0cce87: back in the main stream
